@@ -122,6 +122,7 @@ func checkC17(c *vk.Ctx) {
 	p.WillTopics = []string{"a", "a/b", "$SYS/x", "a/+", "b/#", "b"}
 	p.BadTopicPct = 8
 	p.NLPct = 0
+	p.AliasPct = 25 // alias-only publishes must be authorised on the topic the alias resolves to
 	p.HowDisc = []string{"drop", "normal"}
 	p.W = map[string]int{"connect": 5, "subscribe": 6, "unsubscribe": 1, "publish": 10, "disconnect": 4}
 	h := &histRun{Prop: "C17", Profile: p, N: c.N(400, 10000), Label: 17, Nontrivial: []string{"publish_denied", "read_denied_deliveries", "will_refused"},
